@@ -454,3 +454,30 @@ func VerifC18_MaskItem(src, idx, shape, k, enc int) {
 		verifAssert("second re-encoding is byte-identical", verifBytesEq(e1, e2))
 	}
 }
+
+// VerifC02_JsonNested: a Structure item whose value is an array of n child
+// items of type typeIdx (value by vKind/vLen, each child its own symbolic
+// content), optionally followed by a child that is not an object; decoded as a
+// generic value: no panic, and every loop over the children ends.
+func VerifC02_JsonNested(typeIdx, vKind, vLen, n, junk int) {
+	var kids []any
+	for i := 0; i < n; i++ {
+		m := map[string]any{"tag": "CompromiseDate", "type": c18TypeNames[typeIdx]}
+		if v, ok := c18JSONValue(vKind, vLen, "v"+string(rune('0'+i))); ok {
+			m["value"] = v
+		}
+		kids = append(kids, m)
+	}
+	switch junk {
+	case 1:
+		kids = append(kids, json.Number("1"))
+	case 2:
+		kids = append(kids, map[string]any{"tag": "CompromiseDate", "type": "Structure", "value": []any{}})
+	}
+	top := map[string]any{"tag": "Attribute", "type": "Structure", "value": kids}
+	r := &jsonReader{value: []any{top}}
+	d := newDecoder(r)
+	var v Value
+	_ = d.Any(&v)
+	verifReach("returned")
+}
